@@ -133,11 +133,11 @@ exit "$3"
 
 PLAIN_CHARS = string.ascii_letters + string.digits + "_.-"
 NAME_CHARS = string.ascii_letters + string.digits + "_"
-HOSTILE_CHARS = list("'\"$`\\ \n\t*?[]{}()<>|&;!#~%=,:") + ["é", "中", "😀", "\u0301", "a", "Z", "0", "-"]
+HOSTILE_CHARS = list("'\"$`\\ \n\t*?[]{}()<>|&;!#~%=,:") + list("'\"$`\\\n\n ") + ["é", "中", "😀", "\u0301", "a", "Z", "0", "-"]
 NASTY = [
     "$HOME", "${VF_A}", "$(echo pwned)", "`echo pwned`", 'a"b', "a\\b", "a\\", "\\", "$$", "$", "$1", "\\$HOME", '\\"',
     'x"; echo injected; "', "it's", "' ; echo injected ; '", "a b", " lead", "trail ", "line1\nline2", "\n", "end\n",
-    "tab\tx", "*", "~", "#c", "a;b", "a&&b", "a|b", "a>b", "(x)", "é中😀", "é", "-n", "-e", "%s%n", "{{x}}", "{% x %}",
+    "a\nb", "\nlead", "two\n\nlines\n", "`", "``", '"', "''", "tab\tx", "*", "~", "#c", "a;b", "a&&b", "a|b", "a>b", "(x)", "é中😀", "é", "-n", "-e", "%s%n", "{{x}}", "{% x %}",
 ]
 DQ_SPECIAL = set('$`"\\')  # characters that keep a meaning inside sh double quotes
 UNQUOTED_SAFE = set(string.ascii_letters + string.digits + "_./+:,@%=-")
@@ -253,14 +253,14 @@ def _seq_cases():
     cmd = _cmds(min(m, 2**17), ["plain"] * 10 + ["arg", "arg", "env", "wd"],
                 ["none", "none", "none", "none", "big", "big", "sleep", "timeout", "timeout"],
                 kinds=["text"] * 4 + ["textnl"] * 4 + ["ws", "ws", "empty", "bin"], par=(False, False, False, True))
-    return st.fixed_dictionaries({"fresh": st.sampled_from(["job", "job", "local"]), "cmds": st.lists(cmd, min_size=1, max_size=8 if _tier() == "thorough" else 6)})
+    return st.fixed_dictionaries({"fresh": st.sampled_from(["job", "job", "local"]), "cmds": st.sampled_from([2, 3, 3, 4, 4, 5, 6, 1] + ([7, 8, 8] if _tier() == "thorough" else [])).flatmap(lambda n: st.lists(cmd, min_size=n, max_size=n))})
 
 
 def _tmpl_cases():
     m = min(_max_size(), 2**16 + 1)
     return st.fixed_dictionaries(
         {
-            "tmpl": st.sampled_from(["default", "service", "service", "unknown-service"]),
+            "tmpl": st.sampled_from(["default", "service", "service", "service", "unknown-service"]),
             "cmd": _cmds(m, FOCI, ["none"], need_env_wd=True),
         }
     )
@@ -692,6 +692,10 @@ _TAP = _LogTap()
 
 
 def _setup() -> None:
+    # per shard, outside the per-case safety net: the connector package imports every connector's dependencies
+    import streamflow.deployment.connector.local  # noqa: F401
+    import streamflow.deployment.template  # noqa: F401
+    import vf.fakes.shellremote  # noqa: F401
     from streamflow.log_handler import logger
 
     if _TAP not in logger.filters:
@@ -807,7 +811,7 @@ class _Sandbox:
 # sub-checks
 
 
-@prop.given("sequence", _seq_cases, quick=80, thorough=2000, loop="std", shrink=False, case_timeout=300, setup=_setup)
+@prop.given("sequence", _seq_cases, quick=60, thorough=2000, loop="std", shrink=False, case_timeout=300, setup=_setup)
 async def check_sequence(case, rec):
     """The same sequence on a persistent-shell connector and on a fresh-process connector (vf-shell with job
     names, or the local connector)."""
@@ -862,7 +866,7 @@ async def check_sequence(case, rec):
         _raise_first(violations)
 
 
-@prop.given("single", _single_cases, quick=200, thorough=6000, loop="std", shrink=False, case_timeout=150, setup=_setup)
+@prop.given("single", _single_cases, quick=200, thorough=6000, loop="std", shrink=False, case_timeout=300, setup=_setup)
 async def check_single(case, rec):
     """One command on one path."""
     path, cmd = case["path"], case["cmd"]
@@ -892,7 +896,7 @@ TEMPLATES = {
 }
 
 
-@prop.given("template", _tmpl_cases, quick=60, thorough=3000, loop="std", shrink=False, case_timeout=150, setup=_setup)
+@prop.given("template", _tmpl_cases, quick=60, thorough=3000, loop="std", shrink=False, case_timeout=300, setup=_setup)
 async def check_template(case, rec):
     """create_command + CommandTemplateMap.get_command exactly as QueueManagerConnector.run calls them; the
     rendered script is executed by sh in a fresh process (the batch system's part)."""
